@@ -25,8 +25,8 @@ def badRequest {α} : HRes α := .herr (some .BadRequest)
 def notHandled {α} : HRes α := .herr none
 
 structure Key where
-  method : Nat                 -- request_type_ord
-  path : List String
+  method : Nat                 -- request_type_ord: the raw code byte
+  path : List Bytes            -- raw Uri-Path segments
   requester : Option Nat
   deriving DecidableEq, Repr
 
@@ -48,8 +48,8 @@ def Handler.new (maxSize ttl : Nat) : Handler := { maxSize := maxSize, cache := 
 
 /-- `From<&CoapRequest> for RequestCacheKey` -/
 def keyOf (r : Request) : Key :=
-  { method := MessageClass.toU8 (.Request r.getMethod),
-    path := match r.getPathAsVec with | .ok l => l | _ => [],
+  { method := MessageClass.toU8 r.message.header.code,
+    path := (r.message.getOption Request.uriPath).getD [],
     requester := r.source }
 
 def block1Num : Nat := CoapOption.toU16 .Block1
